@@ -142,8 +142,40 @@ theorem C07_classify_partial (e : CallErr) (r : ρ)
     (a status error) vetoes; the caller's own cancellation is neither. -/
 theorem C07_classify_fixed (e : CallErr) :
     (pluginFailure e = true → isFatal (classify isFatalErrorFixed (.error e : Except CallErr ρ)) = true) ∧
-    (∀ m, e = .status m → classify isFatalErrorFixed (.error e : Except CallErr ρ) = .handlerErr m) := by
+    (∀ c m, e = .status c m → classify isFatalErrorFixed (.error e : Except CallErr ρ) = .handlerErr m) := by
   cases e <;> simp [pluginFailure, classify, isFatalErrorFixed, isFatalError, isFatal, errText]
+
+/-- **A handler's error always vetoes**, whatever it looks like. Whatever error value a plugin's
+    handler returns over its healthy connection — `context.DeadlineExceeded`, `context.Canceled`,
+    `io.EOF`, `io.ErrUnexpectedEOF`, a status error with ANY code (DeadlineExceeded, Unavailable,
+    ResourceExhausted, Canceled, …), `ttrpc.ErrClosed` / `ErrServerClosed` / `ErrProtocol` or any
+    other value, with any text — it reaches the runtime as a status error (`onWire`), and both the
+    unrepaired and the repaired `isFatalError` classify it as the handler's own error carrying
+    its message; so by `C07_veto` the request fails with it, nobody behind is called, nothing
+    partial is returned, and (the outcome not being fatal) the plugin is not closed. -/
+theorem C07_handler_error_vetoes (h : HandlerErr) (msg : Str) :
+    classify isFatalErrorFixed (.error (onWire h msg) : Except CallErr ρ) = .handlerErr msg ∧
+    classify isFatalError (.error (onWire h msg) : Except CallErr ρ) = .handlerErr msg ∧
+    isFatal (classify isFatalErrorFixed (.error (onWire h msg) : Except CallErr ρ)) = false := by
+  cases h <;> simp [onWire, convertCode, classify, isFatalErrorFixed, isFatalError, errText, isFatal]
+
+/-- at the level of a request: the middle plugin's handler returns `context.DeadlineExceeded`
+    at once — the request is vetoed, `c` is not called, `b` stays in the list -/
+example :
+    (request listM 5 4 [(pA, ok 1),
+      (pB, ⟨classify isFatalErrorFixed (.error (onWire .ctxDeadline (str "context deadline exceeded"))), true, 1⟩),
+      (pC, ok 3)]) =
+    (.error (.veto pB (str "context deadline exceeded")), ⟨[pA, pB], [pA, pB], [(pA, 1)], [pA, pB, pC], 2⟩, [pA, pB, pC]) := rfl
+
+/-- not vacuous: a classification that takes the status code DeadlineExceeded for a dead
+    connection swallows that veto (partial result `[1,3]`, `c` called, `b` dropped) -/
+example :
+    (request listM 5 4 [(pA, ok 1),
+      (pB, ⟨classify isFatalErrorStatusDeadline (.error (onWire .ctxDeadline (str "context deadline exceeded"))), true, 1⟩),
+      (pC, ok 3)]).1 = .ok [1, 3] ∧
+    (request listM 5 4 [(pA, ok 1),
+      (pB, ⟨classify isFatalErrorStatusDeadline (.error (onWire .ctxDeadline (str "context deadline exceeded"))), true, 1⟩),
+      (pC, ok 3)]).2.2 = [pA, pC] := ⟨rfl, rfl⟩
 
 /-- UNFIXED code, witness 1: a reply that does not decode is treated as the handler's own error:
     the request fails and the other plugins' contributions are lost. -/
